@@ -96,7 +96,17 @@ for _prop, _e, _n, _d in (('C02', 'h_perm', 'perm', 'random_permutation_fast: re
       desc=_d, symbolic='all draws (each in its requested range)', bounds='n = 2..6 (quick) / 2..9 (thorough), one query per n',
       assumptions=['bounded sampler replaced by its contract: an arbitrary value in [0, m) for the requested m (the sampler itself is C07_nomodbias)'],
       slices=[{'H_N': n} for n in range(2, 7)], tiers={'thorough': {'slices': [{'H_N': n} for n in range(2, 10)]}})
-# C02_sts_import (TMCG_StackSecret::import accepts exactly bijections) is not registered: symbolic text parsing did not fit the budget (see DESIGN.md)
+def STS(nmax):
+    out = []
+    for n in range(1, nmax + 1):
+        import itertools
+        for pre in itertools.product(range(n + 1), repeat=n - 1):      # preceding indices 0..n (n itself = out of range)
+            out.append({'H_N': n, 'H_PREFIX': int(''.join(str(d) for d in pre) or '0')})
+    return out
+H(id='C02_sts_import', property='C02', src='C02_import.cc', entry='h_sts_import', tu=['VTMF_CardSecret.cc', 'parse_helper.cc', 'mpz_helper.cc'], unwind=12,
+  defines={'VF_BITS': 15, 'MINISTL_STRING_MINCAP': 63}, timeout=400,
+  desc='TMCG_StackSecret<VTMF_CardSecret>::import accepts exactly the bijective index vectors', symbolic='the last index digit (0..9); the preceding indices are enumerated by slices over 0..n',
+  bounds='n = 1..2 (quick) / 1..3 (thorough); single-digit indices; card secret text fixed', slices=STS(2), tiers={'thorough': {'slices': STS(3), 'timeout': 1500}})
 
 # ------------------------------------------------------------------ protocol harnesses: common settings
 PROTO_REPLACE = dict(COIN)
@@ -204,7 +214,7 @@ PROTO4('vtmf_mask', 'h_w_mask', 'masking proof presented for another message: ac
 PROTO4('vtmf_decrypt', 'h_w_decrypt', 'decryption share computed with a key other than the published one: accepted only if c == 0 (mod q)', 'both keys, replacement key, c_1, coins, digests')
 
 # ------------------------------------------------------------------ C01
-H(id='C01_cs_xor', property='C01', src='C01_card.cc', entry='h_cs_xor', tu=['SchindelhauerTMCG.cc', 'TMCG_CardSecret.cc', 'TMCG_PublicKey.cc', 'TMCG_Card.cc'], unwind=6, unwindset={'_ZNSt11char_traitsIcE6lengthEPKc.0': 64, '_ZNSs6appendEPKcm.1': 64}, timeout=1500, replace=PROTO_REPLACE,
+H(id='C01_cs_xor', property='C01_unregistered', src='C01_card.cc', entry='h_cs_xor', tu=['SchindelhauerTMCG.cc', 'TMCG_CardSecret.cc', 'TMCG_PublicKey.cc', 'TMCG_Card.cc'], unwind=6, unwindset={'_ZNSt11char_traitsIcE6lengthEPKc.0': 64, '_ZNSs6appendEPKcm.1': 64}, timeout=1500, replace=PROTO_REPLACE,
   defines={'VF_BITS': 12, 'H_MAXDRAWS': 40, 'H_DBITS': 4, 'MINISTL_STREAM_CAP': 128}, config={'TMCG_MAX_FPOWM_T': 8, 'TMCG_MAX_PLAYERS': 4, 'TMCG_MAX_TYPEBITS': 3},
   desc='quadratic-residue encoding: a fresh card secret preserves the type (bit columns XOR to 0) for k players', symbolic='player index, all random bits and masking values',
   bounds='k = 2,3,4 players (one query each), w = 2 type bits; moduli set to 1 so that masking values are concrete (the bit logic does not depend on them)', assumptions=PROTO_ASSUME, slices=[{'H_KPL': k} for k in (2, 3, 4)], backend='kissat', memgb=8)
